@@ -1,6 +1,7 @@
 """C08 - SPI preserves the ordering of observations and never wraps or crashes."""
 from __future__ import annotations
 
+import sys
 import math
 
 import numpy as np
@@ -290,3 +291,9 @@ def run(ctx):
                  cls=["dtype:" + case["dtype"], "groups=%d" % len(case["windows"])] + ["gen:" + t for t in case["tags"]])
 
     ctx.given("groups", group_case(), ctx.n(400, 5000), fn=f_g)
+
+
+from harness import history as _history  # noqa: E402
+
+_history.install(sys.modules[__name__], {"spi": _history.q_spi}, {"spi": _history.spi_args}, n=(100, 1200), dtypes=("int16", "float32"), nt=(12, 24),
+                 attrs0={"nodata": -9999}, cells=st.one_of(st.integers(1, 3000), st.integers(1, 40), st.sampled_from([-9999, 0])))
